@@ -23,6 +23,9 @@ type c07Case struct {
 	G    *ref.G `json:"g,omitempty"`
 	// roundtrip: encode options, 0 none, 1 bounding box, 2 CRS, 3 both
 	Opt int `json:"opt,omitempty"`
+	// roundtrip: the value of the package variable geojson.DefaultLayout during the case (0 = as
+	// shipped, XY): the layout given to geometries without positions, and to nothing else
+	DL geom.Layout `json:"default_layout,omitempty"`
 	// feature
 	ID    string `json:"id,omitempty"`
 	BBox  int    `json:"bbox,omitempty"`  // 0 none, 1 XY, 2 XYZ
@@ -126,7 +129,7 @@ func c07Expect(g *ref.G) (exp *ref.G, mustErr bool) {
 			first, haveFirst = g.C3[0][0][0], true
 		}
 	}
-	layout := geom.XY
+	layout := geojson.DefaultLayout // a geometry without a first position comes back with the default layout
 	if haveFirst {
 		switch len(first) {
 		case 0, 1:
@@ -223,8 +226,17 @@ func c07Exec(c *engine.Ctx, cs c07Case) {
 	c.Count("evaluations", 1)
 	switch cs.Mode {
 	case "roundtrip":
+		// (the run sets the variable before its parallel phase; a replay sets it here)
+		if want := map[bool]geom.Layout{true: geom.XY, false: cs.DL}[cs.DL == geom.NoLayout]; geojson.DefaultLayout != want {
+			saved := geojson.DefaultLayout
+			geojson.DefaultLayout = want
+			defer func() { geojson.DefaultLayout = saved }()
+		}
 		g := cs.G
 		keyBase := fmt.Sprintf("roundtrip/%s/%s", g.Kind, g.Layout)
+		if cs.DL != geom.NoLayout {
+			keyBase += "/DefaultLayout=" + cs.DL.String()
+		}
 		fail := func(what, desc string) { c.Violate(keyBase+"/"+what, desc+" model="+g.String(), "c07", cs) }
 		t := g.MustBuild()
 		var data []byte
@@ -563,6 +575,18 @@ func c07Run(c *engine.Ctx) {
 	}
 	c.Note("geometries", len(corpus))
 	c.Parallel(len(corpus), func(i int) { c07Exec(c, c07Case{Mode: "roundtrip", G: corpus[i]}) })
+	// the same round trips with the package's DefaultLayout set to XYZ, XYM and XYZM: it is the
+	// layout of geometries that have no position to infer one from, and of nothing else
+	savedDL := geojson.DefaultLayout
+	for _, dl := range []geom.Layout{geom.XYZ, geom.XYM, geom.XYZM} {
+		dl := dl
+		geojson.DefaultLayout = dl
+		c.Parallel(len(corpus), func(i int) {
+			c.Count("default_layout_roundtrips", 1)
+			c07Exec(c, c07Case{Mode: "roundtrip", G: corpus[i], DL: dl})
+		})
+	}
+	geojson.DefaultLayout = savedDL
 	// the same round trips with the encoder's options (a bounding box, a CRS member, both): the
 	// library's own output must still read back as the same geometry. A bounding box only where
 	// every dimension it carries has data (see C08).
